@@ -31,6 +31,9 @@ GRAMMARS = {
     "sep": ('r = { sep ~ EOI }\nsep = { " " | "\\t" }', " ", "  "),
     "trivia": ('r = { "a" ~ EOI }\nWHITESPACE = _{ "x" | "y" }', "axy", "a b"),
     # rule names recur, with other bodies, in NAMESAKE below
+    # stand-alone case-insensitive literals: compiled when the parser is built, with whatever the regex package's
+    # process-wide defaults are at that moment
+    "ci": ('r = { ^"ss" ~ ^"k"? ~ ("x" | ^"st")* }', "SSk", "s"),
     "skipref": ('r = { (!end ~ ANY)* ~ end }\nend = { ";" }', "ab;", "ab"),
 }
 # the same rule NAMES as the observed grammars (r, end, sep, s, f) with different bodies; `end` is not
@@ -150,6 +153,14 @@ def run(task: dict) -> dict:
             for pr in eng.explore(fn, max_paths=20000):
                 if pr.status != "ok":
                     res["inconclusive"].append((key, f"{pr.status}: {pr.reason}"))
+                    text = holder.get("text")
+                    if pr.model is not None and text is not None:
+                        # no verdict for the path; its witness is still compared on the real objects
+                        w = text.concrete(pr.model) if isinstance(text, SymStr) else text
+                        ca = pestenv.run_parse(obs_a, "r", w, detail=True)
+                        cb = pestenv.run_parse(obs_b, "r", w, detail=True)
+                        if ca != cb:
+                            res["failures"].append(_fail(task, key, "history-dependent", f"witness of a path without verdict, after history {history} ({when}): {ca} ; pristine: {cb}", w, "true", []))
                     continue
                 text = holder["text"]
                 w = text.concrete(pr.model) if isinstance(text, SymStr) else text
@@ -298,7 +309,7 @@ def main(tier: str, seed: int, args) -> int:
                             "mode": mode,
                             "history": h,
                             "when": when,
-                            "lengths": [0, 1, 2, 3] if tier != "quick" or gname in ("sep", "trivia", "skipref") else [0, 1, 2],
+                            "lengths": [0, 1, 2, 3] if tier != "quick" or gname in ("sep", "trivia", "skipref", "ci") else [0, 1, 2],
                             "regions": {k[len(unit) + 1 :]: v for k, v in regions.items() if k.startswith(unit + "|")},
                         }
                     )
